@@ -22,6 +22,9 @@ Definition step16 (gs : list graph) (root : oid) (st : state) (o : op16) : state
   match o with
   | Mut m => step st m
   | Reg => (fold_left (fun s g => fst (step s (Observe 0 root g))) gs st, mkObs Ok [] [])
+  | RegLazy x f items =>
+      let '(s1, ob1) := step st (TouchItems x f items) in
+      (fold_left (fun s g => fst (step s (Observe 0 root g))) gs s1, mkObs (ob_out ob1) [] (ob_delta ob1))
   | Unreg =>
       fold_left (fun (p : state * obs) g =>
                    let '(s, ob) := p in
